@@ -46,9 +46,26 @@ class RootBase(Node):
     #: uncached observed property
     chv = Property(observe="child.value")
 
+    #: a cached property whose computed value is None while there is no child
+    cfirst = Property(observe="child.value")
+
+    #: a cached property over the nested container
+    dlsnap = Property(observe="dl.items.items")
+
     def _get_csnap(self):
         _ran(self, "csnap")
         return tuple((_tokn(k), _val(k)) for k in self.kids)
+
+    @cached_property
+    def _get_dlsnap(self):
+        _ran(self, "dlsnap")
+        return tuple((int(key) if key.isdigit() else 777, tuple(_tokn(o) for o in inner)) for key, inner in self.dl.items())
+
+    @cached_property
+    def _get_cfirst(self):
+        _ran(self, "cfirst")
+        c = self.child
+        return None if c is None else _val(c)
 
     def _get_chv(self):
         _ran(self, "chv")
